@@ -353,11 +353,8 @@ def readSuffix : P Unit := do
   let info ← rdUInt cx
   if info > (kSUFFIX_KIND_MASK ||| kSUF_FLOAT) then fail cx .sufkind else do
   let kind := info % 4
-  -- ConHandler::num_items(): int + int
-  if kind == 1 && cx.h.num_algebraic_cons + cx.h.num_logical_cons > intMax then pub .signedOverflow else do
+  -- ConHandler::num_items() cannot overflow (ReadHeader checks the sum); ReadUInt(1, num_items + 1u)
   let numItems := cx.h.suffixItems kind
-  -- ReadUInt(1, num_items + 1): int + int
-  if numItems + 1 > intMax then pub .signedOverflow else do
   let n ← readUIntLU cx 1 (numItems + 1)
   let name ← rdName cx
   eol cx
@@ -458,8 +455,9 @@ def readOptions : (n i : Nat) → List Int → L (List Int)
     match ← tReadOptionalDouble inp with
     | none => pure opts
     | some tmp =>
+      -- `if (!(tmp >= -2^63 && tmp < 2^63)) break;` (NaN, ±inf, out of range: option left unchanged)
       match F64.toLong tmp with
-      | none => L.ub .floatCast
+      | none => pure opts
       | some (v, exact) =>
         let opts := opts.set i v
         if exact then readOptions n (i + 1) opts else pure opts
@@ -483,6 +481,8 @@ def readHeader : L Header := do
   let ranges? ← tReadOptionalUInt inp
   let eqns? ← (if ranges?.isSome then tReadOptionalUInt inp else pure none : L (Option Nat))
   let lcons? ← (if eqns?.isSome then tReadOptionalUInt inp else pure none : L (Option Nat))
+  -- suffixes on constraints address algebraic and logical constraints together
+  if lcons?.getD 0 + num_algebraic_cons > intMax then tReport inp .ioverflow else do
   tReadTillEndOfLine inp
   let h := { h with num_vars, num_algebraic_cons, num_objs, num_ranges := ranges?.getD 0,
                     num_eqns := match eqns? with | some e => (e : Int) | none => -1,
@@ -497,7 +497,7 @@ def readHeader : L Header := do
   let allCompl := nz?.isSome
   let num_nl_compl_conds := ncc?.getD 0
   let num_compl_conds := cc?.getD 0 + num_nl_compl_conds
-  if num_compl_conds > intMax then L.ub .signedOverflow else do
+  if num_compl_conds > intMax then tReport inp .ioverflow else do
   tReadTillEndOfLine inp
   let h := { h with num_nl_cons, num_nl_objs, num_compl_conds, num_nl_compl_conds,
                     num_compl_dbl_ineqs := if num_compl_conds > 0 && !allCompl then -1 else ((di?.getD 0 : Nat) : Int),
@@ -571,7 +571,7 @@ deriving Repr, BEq, DecidableEq
 
 def isVarBounds : Ev → Bool | .varBounds .. => true | _ => false
 
-def loopFuel (inp : Inp) : Nat := inp.len + 2
+def loopFuel (inp : Inp) : Nat := 2 * inp.len + 4
 
 /-- `NLReader::Read()` on a state whose notification list is `evs0` -/
 def readBody (cx : Env) (s : PState) : PRes Unit :=
